@@ -137,10 +137,10 @@ class Engine:
             if not fact:
                 raise _PathEnd()
             return
-        fact = z3.simplify(fact) if not heavy else fact
-        if z3.is_false(fact):
+        sf = z3.simplify(fact) if not heavy else fact
+        if z3.is_false(sf):
             raise _PathEnd()
-        if z3.is_true(fact):
+        if z3.is_true(sf):
             return
         self.st.facts.append((fact, heavy))
 
